@@ -205,6 +205,19 @@ fn env_alphabet_v(t: usize, small: bool) -> Vec<Letter> {
     al.push(Letter::one(a(Some(1), z)));
     al.push(Letter::one(Line::U { id: Some(2), srv: "ACS", car: "EAMBIENTE", v: z.clone(), com: "BdC 2: SCOP 3 # x" }));
     al.push(Letter::one(Line::P { id: Some(2), src: "EAMBIENTE", v: vecs[0].clone(), com: "declarada" }));
+    if t == 2 && !small {
+        // unusual but valid spellings of numbers and ids (two-digit and negative ids sort numerically)
+        for raw in [
+            "12, CONSUMO, ACS, EAMBIENTE, 1e1, +2.50",
+            "12, PRODUCCION, EAMBIENTE, 2.5E0, 00012.000",
+            "-7, CONSUMO, CAL, TERMOSOLAR, 3.0000001, -0",
+            "-7, PRODUCCION, TERMOSOLAR, .5, 1.",
+            "10, CONSUMO, VEN, EAMBIENTE, 1, 1 #",
+            "  3 ,CONSUMO,REF,EAMBIENTE,1,1# CTEEPBD_EXCLUYE_SCOP_ACS",
+        ] {
+            al.push(Letter::one(Line::Raw(raw.to_string())));
+        }
+    }
     al
 }
 
